@@ -117,3 +117,136 @@ func vBitPoolRecycle(n int) {
 
 func VerifC07_BitPoolGet8()      { vBitPoolGet(8) }
 func VerifC07_BitPoolRecycle8()  { vBitPoolRecycle(8) }
+
+// Reset from an arbitrary valid pool: afterwards the pool behaves as new
+// (fresh bits 0,1,2.. in order, nothing recycled).
+func VerifC07_BitPoolReset() {
+	p, _ := vArbBitPool(8)
+	p.Reset()
+	vcheck("reset-fields", p.length == 0 && p.available == 0)
+	b0 := p.Get()
+	b1 := p.Get()
+	vcheck("fresh-sequence", b0 == 0 && b1 == 1)
+	p.Recycle(b0)
+	vcheck("recycle-after-reset", p.Get() == b0 && p.available == 0)
+	vreach("end")
+}
+
+// ---- lock = bit pool + 64-bit mask. Ghost: held set H as a mask.
+func invLock(l *lock, g *vBitPoolGhost, n int) bool {
+	ok := invBitPool(&l.bitPool, g, n)
+	for i := 0; i < vBPN; i++ {
+		held := i < int(l.bitPool.length) && g.rank[i] < 0
+		ok = ok && l.locks.Get(uint8(i)) == held
+	}
+	return ok
+}
+
+func vArbLock(n int) (*lock, *vBitPoolGhost) {
+	p, g := vArbBitPool(n)
+	l := &lock{bitPool: *p}
+	l.locks.bits = vU64("locks")
+	vassume(vpure(func() bool { return invLock(l, g, n) }))
+	return l, g
+}
+
+func vLockStep(n int, safe bool) {
+	l, g := vArbLock(n)
+	oldMask := l.locks.bits
+	wasLocked := l.IsLocked()
+	vcheck("islocked-iff-held", wasLocked == (oldMask != 0))
+	full := l.bitPool.available == 0 && int(l.bitPool.length) >= mask64TotalBits
+	var b uint8
+	panicked := vpanics(func() {
+		if safe {
+			b = l.LockSafe()
+		} else {
+			b = l.Lock()
+		}
+	})
+	if full {
+		vcheck("65th-lock-panics", panicked)
+		vcheck("mask-unchanged", l.locks.bits == oldMask)
+		vreach("exhausted")
+		return
+	}
+	vcheck("no-panic", !panicked)
+	if panicked {
+		return
+	}
+	vcheck("bit-was-free", b < 64 && oldMask&(1<<b) == 0)
+	vcheck("exactly-that-bit-set", l.locks.bits == oldMask|(1<<b))
+	vcheck("locked", l.IsLocked())
+	if int(b) < n && int(l.bitPool.length) <= n {
+		g.rank[b] = -1
+		vcheck("inv-after-lock", vpure(func() bool { return invLock(l, g, n) }))
+	}
+	// unlock of a bit that is not held panics without effect
+	u := vU8("u")
+	vassume(u < 64)
+	held := l.locks.bits&(1<<u) != 0
+	m2 := l.locks.bits
+	av2 := l.bitPool.available
+	p2 := vpanics(func() {
+		if safe {
+			l.UnlockSafe(u)
+		} else {
+			l.Unlock(u)
+		}
+	})
+	if !held {
+		vcheck("unbalanced-unlock-panics", p2)
+		vcheck("unbalanced-no-effect", l.locks.bits == m2 && l.bitPool.available == av2)
+		if safe {
+			vcheck("mutex-released-after-panic", !vpanics(func() { l.mu.Lock(); l.mu.Unlock() }))
+		}
+		vreach("unbalanced")
+		return
+	}
+	vcheck("unlock-no-panic", !p2)
+	vcheck("exactly-that-bit-cleared", l.locks.bits == m2&^(1<<u))
+	vcheck("unlocked-iff-none-held", l.IsLocked() == (l.locks.bits != 0))
+	if int(u) < n && int(l.bitPool.length) <= n {
+		g.rank[u] = int16(av2)
+		vcheck("inv-after-unlock", vpure(func() bool { return invLock(l, g, n) }))
+	}
+	vreach("end")
+}
+
+func VerifC07_LockStep8()     { vLockStep(8, false) }
+func VerifC07_LockStepSafe8() { vLockStep(8, true) }
+
+func VerifC07_LockReset() {
+	l, _ := vArbLock(8)
+	l.Reset()
+	vcheck("unlocked", !l.IsLocked() && l.locks.bits == 0)
+	a := l.Lock()
+	b := l.Lock()
+	vcheck("distinct-bits-after-reset", a != b && l.locks.bits == (1<<a)|(1<<b))
+	l.Unlock(a)
+	vcheck("still-locked-by-b", l.IsLocked())
+	l.Unlock(b)
+	vcheck("unlocked-after-both", !l.IsLocked())
+	vreach("end")
+}
+
+// up to 64 locks can be held at once; the 65th panics without effect; any release order works
+func VerifC07_Lock64() {
+	l := newLock()
+	var bits [64]uint8
+	for i := 0; i < 64; i++ {
+		bits[i] = l.Lock()
+	}
+	vcheck("all-64-held", l.locks.bits == ^uint64(0))
+	vcheck("65th-panics", vpanics(func() { l.Lock() }))
+	vcheck("no-effect", l.locks.bits == ^uint64(0) && l.bitPool.length == 64 && l.bitPool.available == 0)
+	// release an arbitrary one and take it again
+	k := vU8("k")
+	vassume(k < 64)
+	vmerge(func() { l.Unlock(k) })
+	vcheck("one-free", l.locks.bits == ^uint64(0)&^(1<<k))
+	var b uint8
+	vmerge(func() { b = l.Lock() })
+	vcheck("same-bit-again", b == k && l.locks.bits == ^uint64(0))
+	vreach("exhausted")
+}
